@@ -410,6 +410,23 @@ func (c *Ctx) genC17() {
 			sess := c.sign("RS256", jwtClaims{Aud: w.root, Iss: w.root, Sub: f.index, Exp: w.now.Add(time.Minute).Unix(), Iat: w.now.Unix(), Nbf: w.now.Unix(), SamlSession: true, TrackedID: f.id, TrackedURI: "/x"}, "sp")
 			w.abs[sess.raw] = sess
 			w.deliver(f.id, true, map[string]string{"saml_" + f.index: sess.raw}, f.index, "session-token-as-tracker")
+			// the browser's whole jar (so the response does answer a pending request) plus one more cookie that RelayState
+			// names and that is not an authentic tracking cookie for that name: tampered / another flow's token renamed /
+			// forged / a session token / garbage / expired
+			extra := func(tag, name, raw string) {
+				j := copyJar(w.jar)
+				j["saml_"+name] = raw
+				w.deliver(f.id, true, j, name, tag)
+			}
+			extra("relay-names-tampered-cookie", "bogus1", tam["saml_"+f.index])
+			w.abs[tam["saml_"+f.index]] = func() jwtToken { t := w.abstractOf(f.cookie); t.macKey = ""; t.raw = tam["saml_"+f.index]; return t }()
+			extra("relay-names-renamed-cookie", "bogus2", f.cookie)
+			extra("relay-names-forged-cookie", "bogus3", forged.raw)
+			extra("relay-names-session-token", "bogus4", sess.raw)
+			extra("relay-names-garbage-cookie", "bogus5", "not.a.jwt")
+			expired := c.sign("RS256", jwtClaims{Aud: w.root, Iss: w.root, Sub: "bogus6", Exp: w.now.Add(-time.Minute).Unix(), Iat: w.now.Add(-3 * time.Minute).Unix(), Nbf: w.now.Add(-3 * time.Minute).Unix(), SamlAuthn: true, TrackedID: "id-old", TrackedURI: "/old"}, "sp")
+			w.abs[expired.raw] = expired
+			extra("relay-names-expired-cookie", "bogus6", expired.raw)
 		}
 		// faithful completion in a random order (interleaving), possibly after the lifetime for some
 		order := c.rng.Perm(len(w.flows))
